@@ -132,6 +132,9 @@ class MutualInfoClimateNetwork(ClimateNetwork):
                   "anomaly values using cython...")
 
         #  Normalize anomaly time series to zero mean and unit variance
+        #  (on a copy: `anomaly` usually is the memoised array of the shared
+        #  ClimateData object)
+        anomaly = anomaly.copy()
         self.data.normalize_time_series_array(anomaly)
 
         #  Create local transposed copy of anomaly
